@@ -171,7 +171,7 @@ def match_known(pid: str, fail: Failure, known) -> Optional[Dict[str, Any]]:
 
 
 def write_replay(pid: str, fail: Failure, idx: int) -> str:
-    d = os.path.join(VERIF, "replays", pid)
+    d = os.path.join(os.environ.get("VERIF_REPLAY_DIR") or os.path.join(VERIF, "replays"), pid)
     os.makedirs(d, exist_ok=True)
     safe = "".join(c if c.isalnum() or c in "._-" else "_" for c in fail.obligation)[:80]
     path = os.path.join(d, f"{safe}.{idx}.json")
@@ -228,7 +228,7 @@ def write_evidence(ctx: Ctx, rep: Report, wall: float, violations: int, known_hi
         "wall_s": round(wall, 2),
         "violations": violations,
     }
-    d = os.path.join(VERIF, "evidence")
+    d = os.environ.get("VERIF_EVIDENCE_DIR") or os.path.join(VERIF, "evidence")    # (overridden only by tools/ when a patch is tried)
     os.makedirs(d, exist_ok=True)
     path = os.path.join(d, f"{ctx.property_id}.json")
     tmp = path + ".tmp"
